@@ -58,6 +58,12 @@ pub fn enumerate_plans(len: usize, tokens: &[Token], seed: u64, exhaustive_limit
 		for _ in 0..6 {
 			plans.push(ReaderKind::Direct(RefillPlan::Fixed(1 + rng.usize(len))));
 		}
+		for k in [4095usize, 4096, 8191, 8192, 8193] {
+			if k < len {
+				plans.push(ReaderKind::Direct(RefillPlan::Fixed(k)));
+				plans.push(ReaderKind::BufReader { cap: k, plan: RefillPlan::Whole });
+			}
+		}
 	}
 	// one refill boundary after each byte inside each multi-byte token
 	let mut tok_idx: Vec<usize> = (0..tokens.len()).filter(|&i| tokens[i].len >= 2).collect();
@@ -370,6 +376,8 @@ impl Prop for C11 {
 			max_len: 1 + rng.usize(6),
 			max_depth: 4,
 			budget: 8 + rng.below(40) as i32,
+			// one scenario in forty carries strings / bytes around the 8 KiB BufReader capacity or above
+			str_boost: if rng.chance(1, 40) { *rng.pick(&[300usize, 9000, 17000, 40000]) } else { 0 },
 		};
 		let v = val::gen_val(rng, &env, &schema, &vcfg);
 		let gk = rng.below(12);
